@@ -36,10 +36,15 @@ PROP = dict(
                            "monitor:get-refused": 5000, "state:two-or-more-fragments": 100000,
                            "state:has-empty-fragment": 100000, "state:wrapped-ring": 1000,
                            "monitor:append-fixed-refused": 100000, "monitor:append-fixed-refused-after-head": 50000,
-                           "monitor:append-fixed-accepted": 100000}),
+                           "monitor:append-fixed-accepted": 100000,
+                           "mpt_dispatch_hash": 500000, "monitor:dispatch-compared": 500000, "dispatch:word-cut-nul-sep": 100000,
+                           "dispatch:word-cut-space-sep": 50000, "dispatch:registered-word": 1000, "dispatch:unknown-word": 300}),
               dict(name="c17_cxx", memcheck=500, src=["c17_cxx.cpp"], libs=["mpt++", "mptio", "mptplot", "mptcore"], batch=512,
                    floors={"message::read": 200000, "message::length": 200000, "monitor:read-step": 200000,
-                           "state:two-or-more-fragments": 10000, "state:has-empty-fragment": 10000})],
+                           "state:two-or-more-fragments": 10000, "state:has-empty-fragment": 10000,
+                           "graphic::target": 150000, "monitor:graphic-compared": 70000,
+                           "graphic:colon-in-third-or-later-fragment": 60000, "graphic:contiguous-target-accepted": 20,
+                           "graphic:contiguous-second-target-accepted": 3})],
         rule=("case = one (byte string, fragment list) pair run through the whole operation battery (C leg) resp. all read plans "
               "(C++ leg), or one ring state (capacity, offset, fill) run with every / 24 PRNG (offset, length) requests of "
               "mpt_message_get, each result again read, searched and argument-split; non-trivial = the string is spread over "
